@@ -274,7 +274,19 @@ def _make_step(index, step, world, plumpy):
             enter(self, args, kwargs)
             for gi, group in enumerate(groups):
                 for eff in group:
-                    _do_effect(self, world, eff, plumpy)
+                    if eff['e'] == 'await_child':
+                        # the step awaits a child's stepping coroutine DIRECTLY (same task, same context)
+                        child_cls = self.__class__._children[eff['child']]
+                        world.child_serial = getattr(world, 'child_serial', 0) + 1
+                        child = child_cls(loop=self.loop)
+                        child._sim_label = f'{label(self)}.c{world.child_serial}'
+                        world.children.append(child)
+                        world.parent_of[id(child)] = self
+                        await child.step_until_terminated()
+                        world.rec('after_nested', label(self), child._sim_label, plumpy.Process.current() is self, None,
+                                  child.state.value)
+                    else:
+                        _do_effect(self, world, eff, plumpy)
                 if gi < len(awaits):
                     await asyncio.sleep(awaits[gi])
                     world.rec(
